@@ -209,6 +209,7 @@ impl Palette {
 
         if size < self.colors.len() {
             self.colors.resize(size, Color::default());
+            self.invalidate_checksum();
         }
     }
 
@@ -238,6 +239,7 @@ impl Palette {
             self.colors.resize(color as usize + 1, Color::default());
         }
         self.colors[color as usize] = color_struct;
+        self.invalidate_checksum();
     }
 
     /// .
@@ -561,6 +563,7 @@ impl Palette {
 
     pub fn clear(&mut self) {
         self.colors.clear();
+        self.invalidate_checksum();
     }
 
     pub fn fill_to_16(&mut self) {
@@ -589,6 +592,7 @@ impl Palette {
             self.colors.resize(color as usize + 1, Color::default());
         }
         self.colors[color as usize] = Color { name: None, r, g, b };
+        self.invalidate_checksum();
     }
 
     pub fn set_color_hsl(&mut self, color: u32, h: f32, s: f32, l: f32) {
@@ -612,6 +616,7 @@ impl Palette {
         };
 
         self.colors[color as usize] = Color { name: None, r, g, b };
+        self.invalidate_checksum();
     }
 
     pub fn insert_color(&mut self, color: Color) -> u32 {
@@ -696,6 +701,12 @@ impl Palette {
             res.push(col.b >> 2);
         }
         res
+    }
+
+    /// an already summed color was changed or removed: `get_checksum` starts over
+    fn invalidate_checksum(&mut self) {
+        self.old_checksum = 0;
+        self.checksum = 0;
     }
 
     pub fn get_checksum(&mut self) -> u32 {
